@@ -45,6 +45,7 @@ def check_C03(ctx):
     b = ctx.build('default')
     funs = 'mpz_add:mpz_sub:mpz_add_ui:mpz_sub_ui:mpz_ui_sub:mpz_neg:mpz_abs:mpz_mul_2exp:mpz_set:mpz_swap'
     ctx.validate(ctx.run_driver(b, 'alias', shards=8, extra='funs=' + funs, tier='thorough', timeout=600))     # every alias partition x exact/generous allocation
+    ctx.validate(ctx.run_driver(b, 'corners_z', shards=16, extra='funs=mpz_add:mpz_sub:mpz_cmp', timeout=900))       # every pair of corner-alphabet operands
     trace_drivers(ctx, [('c03_mpn', 16, 600), ('c03_mpz', 8, 600)], pure_drivers=['c03_mpn', 'c03_mpz'])
     return ctx.finish('model_checking',
         rule='R2: MpzAors enumerates every (alias triple, value triple in -V..V at limb base 3, spare allocation) exhaustively; '
@@ -87,6 +88,11 @@ def fft_consts(th, **over):
     return c
 
 
+def need(n, least, what):
+    """a generator fed by TLC that yields (almost) nothing means the hand-over is broken, not that there is nothing to replay"""
+    if n < least: raise Machinery(f'{what}: only {n} items came out of the TLC run (at least {least} expected)')
+
+
 def parse_tuples(lines, tag):
     """<<"TAG", 1, 2, "x">> lines printed by TLC -> list of lists"""
     out = []
@@ -110,6 +116,7 @@ def check_C01(ctx):
     r = ctx.tlc_model('MulDispatch', cfg_text=cfg(consts=mul_consts(th, N=N, EMIT='TRUE')), name='MulDispatch-region', collect='<<"SHAPE"')
     ctx.model_must_hold(r, what='(callee preconditions / scratch sizes of the mpn_mul dispatch)')
     shapes = parse_tuples(['<<"SHAPE"' + x for x in r.get('collected', [])], 'SHAPE')
+    need(len(shapes), 200, 'C01 boundary shapes')
     if not q:
         r2 = ctx.tlc_model('MulDispatch', cfg_text=cfg(consts=mul_consts(th, N=2 * th['MUL_FFT_FULL_THRESHOLD'] + 64, LO=N + 1)), name='MulDispatch-region-large', timeout=3000)
         ctx.model_must_hold(r2)
@@ -125,6 +132,7 @@ def check_C01(ctx):
                        name='FFTParams-grid', collect='<<"FFTP"', timeout=3000)
     ctx.model_must_hold(rg)
     params = parse_tuples(['<<"FFTP"' + x for x in rg.get('collected', [])], 'FFTP')
+    need(len(params), 4, 'C01 FFT parameter pairs')
     bylabel = {}
     for n1, n2, d, w, k in params:
         bylabel.setdefault((int(d), int(w), k), []).append((int(n1), int(n2)))
@@ -143,6 +151,7 @@ def check_C01(ctx):
     paths = ctx.run_driver(b, 'c01_shapes', shards=48, extra=f'file={sf}', timeout=1500)
     paths += ctx.run_driver(b, 'c01_mul1', shards=4, timeout=600)
     paths += ctx.run_driver(b, 'c01_mpz', shards=8, timeout=900)
+    paths += ctx.run_driver(b, 'corners_z', shards=16, extra='funs=mpz_mul:mpz_addmul', timeout=900)       # every pair of corner-alphabet operands x signs
     paths += ctx.run_driver(b, 'c01_fft', shards=min(16, max(1, len(fftlines))), extra=f'fft={ff}', timeout=1500)
     ctx.validate(paths)
     pp = ctx.run_driver(b, 'c01_mul1', shards=1, extra='pure', timeout=300) + ctx.run_driver(b, 'c01_mpz', shards=1, extra='pure', timeout=300)
@@ -173,6 +182,7 @@ def check_C02(ctx):
     for W, N, CM in ([(2, 3, 8)] if q else [(2, 3, 8), (2, 4, 10), (3, 3, 11)]):
         r = assume_model(ctx, 'Div2exp', {'W': W, 'N': N, 'CMAX': CM, 'Variant': '"ok"'}, name=f'Div2exp-W{W}-N{N}', timeout=3000)
         ctx.model_must_hold(r, what='(limb-level cfdiv_q/tdiv_q/tdiv_r/cfdiv_r _2exp: shift, strip, rounding carry, two\'s complement remainder)')
+    ctx.validate(ctx.run_driver(ctx.build('default'), 'corners_z', shards=16, extra='funs=mpz_tdiv_q:mpz_tdiv_r:mpz_fdiv_q:mpz_fdiv_r:mpz_cdiv_q:mpz_cdiv_r:mpz_mod:mpz_tdiv_qr:mpz_divexact', timeout=900))
     trace_drivers(ctx, [('c02_tdiv', 16, 1200), ('c02_div1', 8, 600), ('c02_mpz', 16, 900)], pure_drivers=['c02_tdiv', 'c02_div1', 'c02_mpz'])
     return ctx.finish('model_checking',
         rule='R2: UdivPreinv = every normalised two-limb divisor and every admissible three-limb numerator at word widths 3..5 bits; SbDivQr = every normalised '
@@ -189,6 +199,7 @@ def check_C10(ctx):
     q = ctx.tier == 'quick'
     r = ctx.tlc_model('MpzLogic', cfg_text=cfg(consts={'B': 4, 'V': 6 if q else 17, 'Variant': '"ok"'}), name='MpzLogic', timeout=3000)
     ctx.model_must_hold(r, what='(mpz_and over the block store: sign paths, realloc, temporaries, aliasing)')
+    ctx.validate(ctx.run_driver(ctx.build('default'), 'corners_z', shards=16, extra='funs=mpz_and:mpz_ior:mpz_xor', timeout=900))
     trace_drivers(ctx, [('c10_mpz', 16, 900), ('c10_mpn', 8, 600)], pure_drivers=['c10_mpz', 'c10_mpn'])
     return ctx.finish('model_checking',
         rule='R2: MpzLogic enumerates every identity triple (res,op1,op2), every value triple in -V..V at limb base 4 and exact/spare allocations through the transcribed '
@@ -282,6 +293,7 @@ def check_C07(ctx):
     b = ctx.build('default')
     funs = 'mpz_gcd:mpz_gcdext:mpz_lcm:mpz_invert:mpz_jacobi:mpz_kronecker:mpz_gcd_ui:mpz_lcm_ui:mpz_kronecker_si:mpz_kronecker_ui:mpz_si_kronecker:mpz_ui_kronecker:mpz_legendre'
     ctx.validate(ctx.run_driver(b, 'alias', shards=8, extra='funs=' + funs, tier='thorough', timeout=900))
+    ctx.validate(ctx.run_driver(b, 'corners_z', shards=16, extra='funs=mpz_gcd:mpz_lcm', timeout=900))
     trace_drivers(ctx, [('c07_mpz', 16, 1500), ('c07_mpn', 8, 900)], pure_drivers=['c07_mpz'])
     return ctx.finish('model_checking',
         rule='R2: GcdContract shows for every |a|,|b|<=M that exactly one cofactor pair satisfies the manual\'s gcdext contract and that the Kronecker oracle equals the definition. '
@@ -328,7 +340,7 @@ def check_C12(ctx):
     ctx.model_must_hold(r, what='(mpq_mul / mpq_add / mpq_sub store sequences under every alias pattern: exact and canonical)')
     r = assume_model(ctx, 'Mpq2exp', {'W': 2, 'L': 4 if q else 5, 'NUMMAX': 9 if q else 15, 'NMAX': 9 if q else 13, 'Variant': '"ok"'}, timeout=3000)
     ctx.model_must_hold(r, what='(mpq_mul_2exp / mpq_div_2exp at limb level over one memory: skipped zero limbs, copy direction in place, shift, leftover count)')
-    trace_drivers(ctx, [('c12', 16, 1500), ('alias_qf', 4, 900)], pure_drivers=['c12'])
+    trace_drivers(ctx, [('c12', 16, 1500), ('corners_q', 16, 900), ('alias_qf', 4, 900)], pure_drivers=['c12'])
     return ctx.finish('model_checking',
         rule='R2: MpqOps = all canonical operand pairs with |num|,den<=K x all 27 identity triples x {mul,add,sub} through the transcribed store sequences; Mpq2exp = mord_2exp at limb level over one memory (every canonical operand of up to L limbs, every count, separate and in-place destination). R3/R1: add/sub/mul/div/inv/neg/abs/'
              'mul_2exp/div_2exp/cmp*/equal/set_*/canonicalize/get_d on operands of 0..200 limbs built with prescribed common factors between the cross terms (each gcd branch), equal '
@@ -342,7 +354,7 @@ def check_C13(ctx):
     q = ctx.tier == 'quick'
     r = assume_model(ctx, 'MpfContract', {'P': 6 if q else 8}, timeout=3000)
     ctx.model_must_hold(r, what='(float accuracy/exactness predicates of SemF vs brute force on small dyadics)')
-    trace_drivers(ctx, [('c13', 16, 1500), ('c13s', 16, 1500), ('alias_qf', 4, 900)], pure_drivers=['c13', 'c13s'])
+    trace_drivers(ctx, [('c13', 16, 1500), ('c13s', 16, 1500), ('corners_f', 16, 1500), ('alias_qf', 4, 900)], pure_drivers=['c13', 'c13s'])
     return ctx.finish('model_checking',
         rule='R2: MpfContract checks the accuracy/exactness predicates the trace specification applies (Close, AccurateQuot, AccurateSqrt, CopyOf) against brute-force rational '
              'arithmetic on all small dyadics. R3/R1: add/sub/mul/div/sqrt and _ui forms, set_q/set_z/set_d, exact functions, comparisons and conversions for destination and operand precisions '
@@ -367,6 +379,7 @@ def check_C06(ctx):
     for mm in ctx.models:
         if mm['name'] == 'RadixText': mm['states'] = max(mm['states'], len(gr)); mm['transitions'] = max(mm['transitions'], len(gr))
     ctx.notes.append(f'number-grammar strings classified by TLC and replayed: {len(gr)} ({sum(1 for g in gr if g[2] == "ok")} accepted)')
+    need(len(gr), 1000, 'C06 grammar strings')
     b = ctx.build('default')
     gf = os.path.join(ctx.scratch, 'grammar.tsv'); open(gf, 'w').write(''.join(f'{g[0]}\t{g[1]}\n' for g in gr))
     paths = ctx.run_driver(b, 'c06_replay', shards=8, extra=f'file={gf}', timeout=900)
@@ -423,6 +436,7 @@ def check_C16(ctx):
     r = assume_model(ctx, 'BinDispatch', dict(lim, NMAX=20000 if q else 42000, EMIT='TRUE'), timeout=3000)
     ctx.model_must_hold(r, what='(mpz_bin_uiui algorithm selection: table limits sound and tight)')
     pairs = [(int(a), int(b)) for a, b in re.findall(r'<<"BIN", (\d+), (\d+), "\w+">>', r['out'])]
+    need(len(pairs), 100, 'C16 bin_uiui boundary pairs')
     rng = random.Random(ctx.seed); rng.shuffle(pairs)
     small = [p for p in pairs if p[0] < 300]; big = [p for p in pairs if p[0] >= 300]
     pairs = small[:900 if q else 4000] + big[:500 if q else 5000]
@@ -453,6 +467,7 @@ def check_C17(ctx):
     r = assume_model(ctx, 'IOModel', {'VMAX': 700 if q else 4095, 'SMAX': 2 if q else 3, 'EMIT': 'TRUE'}, timeout=3000)
     ctx.model_must_hold(r, what='(export/import layout, raw format, fault verdicts)')
     beh = re.findall(r'<<"FAULT", "(\w+)", (-?\d+), (\d+), "(\w+)">>', r['out'])
+    need(len(beh), 20, 'C17 fault positions')
     for mm in ctx.models:
         if mm['name'] == 'IOModel': mm['states'] = max(mm['states'], len(beh)); mm['transitions'] = mm['states']
     b = ctx.build('default')
@@ -478,6 +493,7 @@ def check_C18(ctx):
     r = assume_model(ctx, 'PrintfModel', {'EMIT': 'TRUE'}, timeout=3000)
     ctx.model_must_hold(r, what='(transcribed __gmp_doprnt_integer layout = C99 printf layout on the whole product)')
     rows = re.findall(r'<<"FMT", "(.*)", (-?\d+), (-?\d+), "(.)", (-?\d+)>>', r['out'])
+    need(len(rows), 1000, 'C18 format rows')
     for mm in ctx.models:
         if mm['name'] == 'PrintfModel': mm['states'] = max(mm['states'], len(rows)); mm['transitions'] = mm['states']
     b = ctx.build('default')
@@ -612,6 +628,7 @@ def check_C15(ctx):
                       inv=('AlwaysDecided', 'SlotsSane', 'FinalVector', 'FlagImpliesInstalled')), name='FatInit')
     ctx.model_must_hold(r, what='(lazy dispatch initialisation under every interleaving)')
     scheds = sorted(set(scheds)); random.Random(ctx.seed).shuffle(scheds)
+    need(len(scheds), 20, 'C15 thread schedules')
     if q: scheds = scheds[:120]
     b = ctx.build('default')
     sf = os.path.join(ctx.scratch, 'sched.lst'); open(sf, 'w').write('\n'.join(scheds) + '\n')
